@@ -3,7 +3,7 @@ identity, per-mode variants sum to the non-modal twin, general variants reduce t
 (absolute oracle) every implementation equals the degree-2 tide-raising potential of a point mass on a Kepler orbit
 up to its stated truncation order.
 
-E1 lattice over the 8 shipped implementations (real numba-compiled code), four sub-lattices:
+E1 lattice over the 8 shipped implementations (real numba-compiled code), three sub-lattices:
 
  self   impl x n x spin/n x e x obliquity x use_static, on a node grid of 17 colatitudes strictly inside (0, pi) x 17
         equispaced longitudes x (5 phases of every mode frequency j*o+k*n, j<=2, |k|<=5).  Oracles per mode:
@@ -229,11 +229,11 @@ def call(impl, body, n, o, e, ob, static, times):
     R, a, Mh = body
     L, C, T = mesh(times)
     if spec['kind'] == 'sync':
-        out = f(float(R), L, C, T, float(n), float(e), float(Mh), float(a))
+        out = jit_call(f, float(R), L, C, T, float(n), float(e), float(Mh), float(a))
     elif spec['kind'] == 'noobl':
-        out = f(float(R), L, C, T, float(n), float(o), float(e), float(Mh), float(a), bool(static))
+        out = jit_call(f, float(R), L, C, T, float(n), float(o), float(e), float(Mh), float(a), bool(static))
     else:
-        out = f(float(R), L, C, T, float(n), float(o), float(e), float(ob), float(Mh), float(a), bool(static))
+        out = jit_call(f, float(R), L, C, T, float(n), float(o), float(e), float(ob), float(Mh), float(a), bool(static))
     sc = scale_of(body)
     freqs = {str(k): float(v) for k, v in out[0].items()}
     modes = {str(k): float(v) for k, v in out[1].items()}
@@ -250,6 +250,25 @@ def call(impl, body, n, o, e, ob, static, times):
 
 class ShapeError(Exception):
     pass
+
+
+class InfraError(BaseException):
+    """Not an Exception on purpose: must not be mistaken for a behaviour of the code under test (-> harness error, exit 2)."""
+
+
+def jit_call(f, *args):
+    """Call a numba dispatcher.  An OSError can only come from numba's on-disk cache (seen once: FileNotFoundError on
+    '<cache>/...nbi.tmp...' when a concurrent check evicted the cache directory while this worker was compiling); the
+    potentials themselves are pure arithmetic.  Retry, then give up as an infrastructure error -- never a violation."""
+    import time
+    last = None
+    for _ in range(3):
+        try:
+            return f(*args)
+        except OSError as ex:
+            last = ex
+            time.sleep(0.5)
+    raise InfraError(f'numba cache I/O keeps failing: {type(last).__name__}: {last}')
 
 
 def total6(pots):
